@@ -142,9 +142,9 @@ pub fn run(args: &Args, rep: &mut Report) {
         names.dedup();
         // the population lives in a cluster directory (fat12/16) or the FAT32 root
         let vc = match rng.below(3) {
-            0 => VolCfg { fat: 12, bps: 512, spc: 4, nfats: 1, root_entries: 64, clusters: 900, extra: 0, garbage: true, slack: 0 },
-            1 => VolCfg { fat: 16, bps: 512, spc: 1, nfats: 2, root_entries: 512, clusters: 4200, extra: 0, garbage: false, slack: 0 },
-            _ => VolCfg { fat: 32, bps: 512, spc: 1, nfats: 1, root_entries: 0, clusters: 65600, extra: 0, garbage: true, slack: 0 },
+            0 => VolCfg { fat: 12, bps: 512, spc: 4, nfats: 1, root_entries: 64, clusters: 900, extra: 0, garbage: true, slack: 0, used_device: false },
+            1 => VolCfg { fat: 16, bps: 512, spc: 1, nfats: 2, root_entries: 512, clusters: 4200, extra: 0, garbage: false, slack: 0, used_device: false },
+            _ => VolCfg { fat: 32, bps: 512, spc: 1, nfats: 1, root_entries: 0, clusters: 65600, extra: 0, garbage: true, slack: 0, used_device: false },
         };
         let Ok((img, vb)) = cache.get(&vc) else { continue };
         let in_root = vc.fat == 32 || (vc.fat == 16 && rng.chance(1, 2));
